@@ -126,10 +126,11 @@ func (p *Parser) Parse() (al align.Alignment, err error) {
 			break
 		}
 
-		if tok == IDENT || tok == NUMERIC {
+		// After the header line, the word "STOCKHOLM" is an ordinary sequence name
+		if tok == IDENT || tok == NUMERIC || tok == STOCKHOLM {
 			name := lit
 			tok, lit = p.scanIgnoreWhitespace()
-			if tok != IDENT {
+			if tok != IDENT && tok != STOCKHOLM {
 				err = fmt.Errorf("found illegal sequence %q", lit)
 				return
 			}
